@@ -17,6 +17,30 @@ theorem dec_map (g : α → β) (ev : List Nat) (vs : List α) : dec ev (vs.map 
         simp only [List.map_cons, dec, List.map_append, List.map_replicate]
         rw [← ih vs]
 
+theorem countP_replicate' {β : Type} (p : β → Bool) (n : Nat) (v : β) :
+    (List.replicate n v).countP p = if p v then n else 0 := by
+  induction n with
+  | zero => simp
+  | succ n ih =>
+    rw [List.replicate_succ, List.countP_cons, ih]
+    split <;> simp_all
+
+theorem weightedCount_dec {β : Type} (p : β → Bool) (ev : List Nat) (vs : List β) :
+    (List.zipWith (fun (l : Nat) (v : β) => if p v then l else 0) (runLens ev) vs).sum = (dec ev vs).countP p := by
+  unfold runLens
+  induction ev generalizing vs with
+  | nil => simp [dec]
+  | cons a t ih =>
+    cases t with
+    | nil => simp [dec]
+    | cons b rest =>
+      cases vs with
+      | nil => simp [dec]
+      | cons v vs =>
+        have := ih vs
+        simp only [List.drop_succ_cons, List.drop_zero] at this ⊢
+        simp only [List.zipWith_cons_cons, List.sum_cons, dec, List.countP_append, this, countP_replicate']
+
 theorem sum_dec (ev : List Nat) (vs : List Int) :
     (List.zipWith (fun (l : Nat) (v : Int) => (l : Int) * v) (runLens ev) vs).sum = (dec ev vs).sum := by
   unfold runLens
